@@ -4,7 +4,9 @@
 set -e
 P="$1"; shift
 D=$(mktemp -d /tmp/mrepo.XXXXXX)
-trap 'rm -rf "$D"; rm -f /verif/.build/bin/*-????????.test /verif/.build/alt-*' EXIT
+VERIF_HOME=$(cd "$(dirname "$(readlink -f "$0")")/.." && pwd)
+TAG=$(python3 -c 'import sys,zlib; print("%08x" % (zlib.crc32(sys.argv[1].encode()) & 0xFFFFFFFF))' "$D")
+trap 'rm -rf "$D"; rm -f "$VERIF_HOME"/.build/bin/*-$TAG.test "$VERIF_HOME"/.build/alt-$TAG.*; rm -rf "$VERIF_HOME"/.build/out-$TAG' EXIT
 rsync -a --exclude .git /repo/ "$D"/
 case "$P" in
   -R:*) git -C /repo show "${P#-R:}" | (cd "$D" && patch -s -R -p1) ;;
@@ -12,4 +14,4 @@ case "$P" in
 esac
 (cd "$D" && GOFLAGS=-mod=mod GOPROXY=off go build ./... ) || { echo "PATCHED TREE DOES NOT BUILD"; exit 3; }
 if [ -n "$BASELINE" ]; then (cd "$D" && GOFLAGS=-mod=mod GOPROXY=off go test -count=1 ./... 2>&1 | tail -5); fi
-cd /verif && VERIF_REPO="$D" ./check "$@" || true
+cd "$VERIF_HOME" && VERIF_REPO="$D" ./check "$@" || true
